@@ -43,6 +43,13 @@ KINDS = {"exception": Boom, "keyboardInterrupt": BoomInterrupt, "systemExit": Bo
 INJECTED = (Boom, BoomBase, BoomInterrupt, BoomExit)
 
 
+def pm_value(config):
+    """the value passed as transaction_per_migration: the bool, or - config["pm_int"] - its int spelling 0 / 1
+    (`int(os.environ[...])` in an env.py); alembic only promises to look at its truth value"""
+    b = bool(config["perMig"])
+    return int(b) if config.get("pm_int") else b
+
+
 def sql_of(stmt, ids=None):
     kind, what, e = stmt
     if what in ("vdel", "vins"):
@@ -286,7 +293,7 @@ def run_inprocess(path, hist, bodies, rev_index, cmd, target, config, fail):
             return sd._upgrade_revs(target, heads)
         return sd._downgrade_revs(target, heads)
 
-    opts = {"fn": fn, "script": sd, "transaction_per_migration": bool(config["perMig"]),
+    opts = {"fn": fn, "script": sd, "transaction_per_migration": pm_value(config),
             "on_version_apply": (orc.on_version_apply,)}
     if config.get("tddl") is not None:
         opts["transactional_ddl"] = config["tddl"]
@@ -521,7 +528,7 @@ def run_offline(hist, bodies, rev_index, cmd, target, config, fail, start_rows):
         return sd._downgrade_revs(target, heads)
 
     buf = io.StringIO()
-    opts = {"as_sql": True, "output_buffer": buf, "fn": fn, "script": sd, "transaction_per_migration": bool(config["perMig"]),
+    opts = {"as_sql": True, "output_buffer": buf, "fn": fn, "script": sd, "transaction_per_migration": pm_value(config),
             "on_version_apply": (orc.on_version_apply,)}
     if config.get("tddl") is not None:
         opts["transactional_ddl"] = config["tddl"]
